@@ -63,6 +63,10 @@ def shards(tier):
         for renamed in (False, True):
             if tier == "quick":
                 out.append({"part": "one", "kind": kind, "renamed": renamed, "asize": 3, "n": 3, "lfirst": None})
+                if kind == "i8" and not renamed:
+                    # integer keys that are unique and span exactly nrow - 1 without being a running number: 0, 2**53+1, 2
+                    for lf in range(4):
+                        out.append({"part": "one", "kind": kind, "renamed": renamed, "asize": 4, "n": 3, "lfirst": lf})
             else:
                 a = KEY_ALPHA[kind]
                 for lf in range(len(a)):
